@@ -2,6 +2,7 @@ package tlive
 
 import (
 	"fmt"
+	"sort"
 	"strings"
 )
 
@@ -149,3 +150,63 @@ func Term(sc Scenario, res Result, snaps []Snap) string {
 // ZS / ZList print Z literals for shards that open Z_scope
 func ZS(v int64) string      { return zs(v) }
 func ZList(v []int64) string { return zlist(v) }
+
+// Events builds the flat event list for spec/TimerExplain.v: Call (with the instant
+// chosen for its locked section: as late as the observations allow), Cancel, callback
+// start and end, sorted by time.
+//
+//	1 x d tc nonnil a | 2 x t started | 3 x s | 4 x e
+func Events(res Result) []int64 {
+	type ev struct {
+		t    int64
+		k    int
+		data []int64
+	}
+	var evs []ev
+	b := func(x bool) int64 {
+		if x {
+			return 1
+		}
+		return 0
+	}
+	for _, f := range res.Futs {
+		if !f.Created {
+			continue
+		}
+		id := int64(f.ID)
+		tc := f.Fire - f.DNs
+		a := f.Call1
+		if len(f.Starts) > 0 && f.Starts[0] < a {
+			a = f.Starts[0]
+		}
+		if a < tc {
+			a = tc
+		}
+		evs = append(evs, ev{a, 0, []int64{1, id, f.DNs, tc, b(f.NonNil), a}})
+		started := len(f.Starts) > 0
+		for _, c := range f.Cancels {
+			t := c[0]
+			if started {
+				t = c[1]
+			}
+			evs = append(evs, ev{t, 1, []int64{2, id, t, b(started)}})
+		}
+		for _, s := range f.Starts {
+			evs = append(evs, ev{s, 2, []int64{3, id, s}})
+		}
+		for _, e := range f.Ends {
+			evs = append(evs, ev{e, 3, []int64{4, id, e}})
+		}
+	}
+	sort.SliceStable(evs, func(i, j int) bool {
+		if evs[i].t != evs[j].t {
+			return evs[i].t < evs[j].t
+		}
+		return evs[i].k < evs[j].k
+	})
+	var out []int64
+	for _, e := range evs {
+		out = append(out, e.data...)
+	}
+	return out
+}
